@@ -20,9 +20,9 @@ for t in "$SEED"/*_test.go; do
   [ -z "$dest" ] && dest=$(basename "$t")
   mkdir -p "$(dirname "$dest")"; cp "$t" "$dest"; echo "demo -> $dest"
   pkg="./$(dirname "$dest")"
-  if go test -vet=off -count=1 $RACE -timeout 120s -run 'ZZ|Demo|zz|TestC[0-9][0-9][a-z]|TestS2' "$pkg" >/tmp/seedchk.with.log 2>&1; then echo "RESULT demo PASSES with patch (expected fail)"; tail -5 /tmp/seedchk.with.log; exit 1; else echo "demo: FAIL with patch (expected)"; fi
+  if go test -vet=off -count=1 $RACE -timeout 120s -run 'ZZ|Demo|zz|TestC[0-9][0-9][a-z]|TestS[0-9]' "$pkg" >/tmp/seedchk.with.log 2>&1; then echo "RESULT demo PASSES with patch (expected fail)"; tail -5 /tmp/seedchk.with.log; exit 1; else echo "demo: FAIL with patch (expected)"; fi
   git apply -R "$SEED/patch.diff"
-  if go test -vet=off -count=1 $RACE -timeout 120s -run 'ZZ|Demo|zz|TestC[0-9][0-9][a-z]|TestS2' "$pkg" >/tmp/seedchk.without.log 2>&1; then echo "demo: PASS without patch (expected)"; else echo "RESULT demo FAILS without patch"; tail -15 /tmp/seedchk.without.log; exit 1; fi
+  if go test -vet=off -count=1 $RACE -timeout 120s -run 'ZZ|Demo|zz|TestC[0-9][0-9][a-z]|TestS[0-9]' "$pkg" >/tmp/seedchk.without.log 2>&1; then echo "demo: PASS without patch (expected)"; else echo "RESULT demo FAILS without patch"; tail -15 /tmp/seedchk.without.log; exit 1; fi
   git apply "$SEED/patch.diff"
 done
 echo "RESULT confirmed"
